@@ -9,8 +9,10 @@ oracle:         real code vs `pdshmodel hl spec` (Hostlist/Spec.lean): the class
                 (unbalanced / non-numeric / reversed -> must fail; too large -> 'too many hosts'; else a
                 host list of the expected size), crashes / time / memory ceilings as observables
 """
+import itertools
 import json
 import os
+import re
 
 from vlib.hostlist import (HL, Cli, WFGen, LIMIT, hx, unhx, parse_probe, parse_spec, same_answer, feat_big,
                            feat_longplain, feat_first_group_complete, feat_d16, gen_malformed, exhaustive,
@@ -116,39 +118,47 @@ def run(ctx):
                    "bracket; (thorough) all strings over {a,0,1,9,[,],-,,} up to length 7; non-trivial = contains a "
                    "bracket or a digit run >= 10; distinct = distinct text"}
     dist = {}
-    if ctx.replay:
-        rep = json.load(open(ctx.replay))
-        cases = [(unhx(rep["case"]["expr_hex"].rstrip(".")), "replay")]
-    else:
-        cases = [(s, "corpus") for s in load_corpus()]
+    def stream():
+        if ctx.replay:
+            rep = json.load(open(ctx.replay))
+            yield (unhx(rep["case"]["expr_hex"].rstrip(".")), "replay")
+            return
+        for s in load_corpus():
+            yield (s, "corpus")
         wf = WFGen(rng, max_hosts=300)
-        n = 4000 if ctx.quick() else 150000
-        for _ in range(n):
-            cases.append((gen_malformed(rng, wf, dist), "generated"))
+        for _ in range(4000 if ctx.quick() else 40000):
+            yield (gen_malformed(rng, wf, dist), "generated")
         if ctx.tier == "thorough":
+            dist["exhaustive"] = 0
             for s in exhaustive(b"a019[]-,", 7):
-                cases.append((s, "exhaustive"))
-            dist["exhaustive"] = sum(1 for c in cases if c[1] == "exhaustive")
+                dist["exhaustive"] += 1
+                yield (s, "exhaustive")
+
     if hl.build():
-        strings = [c[0] for c in cases]
-        ctx.log("%d cases generated" % len(strings))
-        spec = hl.spec(strings)
-        ctx.log("spec done")
-        impl, model = hl.probe_all(strings)
-        ctx.log("impl+model done (%d forked)" % hl.nfork)
-        distinct = set()
+        distinct = 0
         classes = {}
-        import re
-        for (s, origin), sp, a, b in zip(cases, spec, impl, model):
-            judge(ctx, s, sp, a, b, origin)
-            cov["evaluations"] += 1
-            k = (sp.split(" ")[0] if not sp.startswith("fail") else sp) + " -> " + a.split(" ")[0]
-            classes[k] = classes.get(k, 0) + 1
-            if b"[" in s or b"]" in s or re.search(rb"[0-9]{10,}", s):
-                distinct.add(s)
-            if len(cov["samples"]) < 5 and 4 < len(s) < 40 and origin == "generated" and sp.startswith("fail"):
-                cov["samples"].append({"text": s.decode("latin1"), "spec": sp, "impl": a[:120]})
-        cov["distinct_nontrivial"] = len(distinct)
+        it = stream()
+        while True:
+            cases = list(itertools.islice(it, 100000))
+            if not cases:
+                break
+            strings = [c[0] for c in cases]
+            spec = hl.spec(strings)
+            ctx.log("chunk of %d: spec done" % len(strings))
+            impl, model = hl.probe_all(strings, force_fork=0.02 if cases[-1][1] != "exhaustive" else 0.0005)
+            ctx.log("chunk: impl+model done (%d forked so far)" % hl.nfork)
+            seen = set()
+            for (s, origin), sp, a, b in zip(cases, spec, impl, model):
+                judge(ctx, s, sp, a, b, origin)
+                cov["evaluations"] += 1
+                k = (sp.split(" ")[0] if not sp.startswith("fail") else sp) + " -> " + a.split(" ")[0]
+                classes[k] = classes.get(k, 0) + 1
+                if (b"[" in s or b"]" in s or re.search(rb"[0-9]{10,}", s)) and s not in seen:
+                    seen.add(s)
+                    distinct += 1
+                if len(cov["samples"]) < 5 and 4 < len(s) < 40 and origin == "generated" and sp.startswith("fail"):
+                    cov["samples"].append({"text": s.decode("latin1"), "spec": sp, "impl": a[:120]})
+        cov["distinct_nontrivial"] = distinct
         dist["forked"] = hl.nfork
         dist["classes(spec -> impl)"] = dict(sorted(classes.items(), key=lambda kv: -kv[1])[:40])
         if not ctx.replay:
